@@ -367,6 +367,20 @@ func c04Gen(rng *rand.Rand, tier string, w *bufio.Writer) {
 	emit(append(append([]byte{}, hdr...), c04Block(uint32(len(big)), 0xFFFFFFFF, 1, big, true)...), 0, "forged-dlen")
 	mid := []byte{0x80, 0x80, 0x80, 0x40, 0x00} // snappy varint 128 MiB
 	emit(append(append([]byte{}, hdr...), c04Block(uint32(len(mid)), 1<<27, 1, mid, true)...), 0, "forged-dlen")
+	// a plausible header (small UncompressedSize) in front of a huge snappy preamble: only the preamble is what snappy allocates
+	emit(append(append([]byte{}, hdr...), c04Block(uint32(len(big)), 24, 1, big, true)...), 0, "forged-dlen")
+	emit(append(append([]byte{}, hdr...), c04Block(uint32(len(mid)), 100, 2, mid, true)...), 0, "forged-dlen")
+	// an entry stream that ends 0..3 bytes after a key (CRC and snappy intact): the data-length field is cut
+	for cut := 0; cut <= 4; cut++ {
+		e := v2.Entry{Operation: 1, Key: "kkkk", Data: []byte("vvvvvv")}
+		u := e.Serialize()[:3+4+cut]
+		c := snappy.Encode(nil, u)
+		emit(append(append([]byte{}, hdr...), c04Block(uint32(len(c)), uint32(len(u)), 1, c, true)...), 0, "payload")
+		first := v2.Entry{Operation: 1, Key: "a", Data: []byte("b")}
+		two := append(first.Serialize(), u...)
+		c2 := snappy.Encode(nil, two)
+		emit(append(append([]byte{}, hdr...), c04Block(uint32(len(c2)), uint32(len(two)), 2, c2, true)...), 0, "payload")
+	}
 	emit(append(append([]byte{}, hdr...), c04Block(0, 0, 0, nil, true)...), 0, "forged")                       // empty compressed data
 	emit(append(append([]byte{}, hdr...), c04Block(1, 0, 65535, []byte{0}, true)...), 0, "forged")             // snappy(""), 65535 entries claimed
 	emit(append(append([]byte{}, c04Header(9, nil)...), 1, 2, 3), 0, "version")
@@ -458,7 +472,7 @@ func c04Gen(rng *rand.Rand, tier string, w *bufio.Writer) {
 			u = append(u, e.Serialize()...)
 		}
 		count := uint16(n)
-		switch rng.Intn(8) {
+		switch rng.Intn(9) {
 		case 0: // key length field beyond the payload
 			binary.LittleEndian.PutUint16(u[1:3], uint16(len(u)+rng.Intn(70000)))
 		case 1: // data length field beyond the payload (last entry)
@@ -477,11 +491,23 @@ func c04Gen(rng *rand.Rand, tier string, w *bufio.Writer) {
 			count = uint16(int(count) + rng.Intn(5) - 2)
 		case 6: // pure noise payload
 			rng.Read(u)
+		case 7: // the stream ends 0..3 bytes after the last entry's key
+			last := v2.Entry{Operation: 1, Key: string(c01GenBytes(1+rng.Intn(9), rng.Intn(99))), Data: []byte("x")}
+			u = append(u, last.Serialize()[:3+len(last.Key)+rng.Intn(4)]...)
+			n++
+			count = uint16(n)
 		}
 		c := snappy.Encode(nil, u)
 		usize := uint32(len(u))
 		if rng.Intn(10) == 0 {
 			usize += uint32(rng.Intn(3))
+		}
+		if rng.Intn(12) == 0 { // keep the header plausible, forge the snappy preamble (declared decoded length)
+			pre := [][]byte{{0xff, 0xff, 0xff, 0xff, 0x0f}, {0x80, 0x80, 0x80, 0x40}, {0x80, 0x80, 0x80, 0x80, 0x04}}[rng.Intn(3)]
+			_, hl := binary.Uvarint(c)
+			if hl > 0 {
+				c = append(append([]byte{}, pre...), c[hl:]...)
+			}
 		}
 		x := append(append([]byte{}, hdr...), c04Block(uint32(len(c)), usize, count, c, true)...)
 		if rng.Intn(4) == 0 { // a second, intact block after it
